@@ -532,7 +532,7 @@ class UnicodeData:
         if normalize:
             key = name.upper().replace(' ', '').replace('_', '').replace('-', '')
             try:
-                name = self._unicode_blocks[key]
+                name = self._unicode_blocks[key].replace(' ', '').replace('_', '')
             except KeyError:
                 if key != 'NOBLOCK':
                     raise
